@@ -66,6 +66,7 @@ def run(run, ix, tier):
     from ..stale_pack import check_stale_packs
     run.rule('C-R9', floor=30, desc='packed interval and unpacked endpoints stay in sync')
     check_stale_packs(run, ix, 'C-R9', prefix='mpi_')
+    check_turning_point_brackets(run, ix)
     # C-R16: zero and infinite endpoints through + - * / (class-level enclosure, sa/checks/special_rules.py)
     from .special_rules import check_interval_endpoints
     run.rule('C-R16', floor=500, desc='interval + - * / on every combination of endpoint classes (0, +-inf)')
@@ -543,3 +544,64 @@ def check_conversions(run, ix):
         run.fail(Finding('C-R6', CTXIV, c.qualname, 'def _get_mpi_',
                          'interval constant is not (f(prec, round_floor), f(prec, round_ceiling))',
                          line=c.lineno))
+
+
+
+def check_turning_point_brackets(run, ix):
+    """C-R17.  gamma has its positive minimum at x0 = 1.4616321449683623...; the code knows it only through a pair
+    of constants gamma_min_a < x0 < gamma_min_b.  A branch that evaluates gamma at the two endpoints only (monotone
+    shortcut) is sound when the WHOLE interval lies on one side of x0: "increasing" needs lower > gamma_min_b (the
+    UPPER bracket constant), "decreasing" needs upper < gamma_min_a (the LOWER one).  With the constants swapped an
+    interval that contains x0 but ends inside the bracket is treated as monotone and gamma(x0) is excluded."""
+    rel = 'mpmath/libmp/libmpi.py'
+    m = ix.module(rel)
+    consts = {}
+    for name, value, st, g in m.toplevel_assigns:
+        if isinstance(value, ast.Call) and norm(value.func) == 'from_float' and value.args and \
+                isinstance(value.args[0], ast.Constant):
+            consts[name] = value.args[0].value
+    pairs = [(n[:-2], consts[n], consts[n[:-2] + '_b']) for n in consts if n.endswith('_a') and n[:-2] + '_b' in consts]
+    run.rule('C-R17', floor=2, desc='turning-point brackets: the conservative constant on each side')
+    if not pairs:
+        raise AnalysisError('bracket constants not found')
+    for base, va, vb in pairs:
+        if not va < vb:
+            run.fail(Finding('C-R17', rel, '<module>', '%s_a, %s_b' % (base, base),
+                             'the bracket is not ordered: %r >= %r' % (va, vb), line=None))
+    f = ix.func(rel, 'mpi_gamma')
+    unp = [x for x in _walk_own(f.node) if isinstance(x, ast.Assign) and isinstance(x.targets[0], ast.Tuple) and
+           len(x.targets[0].elts) == 2 and norm(x.value) == f.params[0]]
+    if not unp:
+        raise AnalysisError('mpi_gamma: endpoints not unpacked')
+    lo, hi = [e.id for e in unp[0].targets[0].elts]
+    n = 0
+    for st in _walk_own(f.node):
+        if not isinstance(st, ast.If):
+            continue
+        # a monotone shortcut: the body evaluates kernels with explicit directed modes
+        direct = any(isinstance(c, ast.Call) and any(norm(a) in ('round_floor', 'round_ceiling') for a in c.args)
+                     for b_ in st.body for c in ast.walk(b_))
+        if not direct:
+            continue
+        for c in ast.walk(st.test):
+            if not (isinstance(c, ast.Call) and norm(c.func) in ('mpf_gt', 'mpf_ge', 'mpf_lt', 'mpf_le') and len(c.args) == 2):
+                continue
+            x, k = norm(c.args[0]), norm(c.args[1])
+            base = k[:-2]
+            if not (k.endswith(('_a', '_b')) and any(p[0] == base for p in pairs)):
+                continue
+            n += 1
+            right = norm(c.func) in ('mpf_gt', 'mpf_ge')
+            ok = (right and x == lo and k.endswith('_b')) or ((not right) and x == hi and k.endswith('_a'))
+            if ok:
+                run.ok('C-R17', 'mpi_gamma: `%s` uses the conservative bracket constant' % norm(c))
+            else:
+                run.fail(Finding('C-R17', rel, f.qualname, norm(c),
+                                 'the monotone shortcut is entered on `%s`: to lie wholly %s the turning point the %s '
+                                 'endpoint `%s` must be compared with %s_%s; as written an interval that contains the '
+                                 'minimum of gamma but ends inside the bracket is treated as monotone and its result '
+                                 'excludes gamma(x0)' % (norm(c), 'right of' if right else 'left of',
+                                                         'lower' if right else 'upper', lo if right else hi, base,
+                                                         'b' if right else 'a'), line=c.lineno))
+    if n < 2:
+        raise AnalysisError('mpi_gamma: region tests against the bracket constants not found')
